@@ -185,7 +185,13 @@ def run_check(mod, prop, root, overrides):
     repo = Repo(root, overrides=overrides)
     r = Run(prop, 'quick', 0, repo)
     try:
+        from . import xlate as _x
+        from .main import report_hazards, check_placeholders
+        _x.HAZARD_LOG[:] = []
+        _x.PLACEHOLDER_LOG[:] = []
         mod.check(r, repo)
+        report_hazards(r, repo, _x.HAZARD_LOG)
+        check_placeholders(repo, _x.PLACEHOLDER_LOG)
     except (AnchorError, Unsupported, AnalysisError) as e:
         return None, '%s: %s' % (type(e).__name__, e)
     return r, None
@@ -199,7 +205,7 @@ def selftest(run, repo, mod):
     if not muts and not eqs and not seeds and not seeded(prop, 'equivalent'):
         return
     t0 = time.time()
-    base = {f.ident() for f in run.findings}
+    base = {(f.ident(), f.sig) for f in run.findings}
     res = {'mutants': 0, 'caught': 0, 'skipped': [], 'equiv': 0, 'silent': 0, 'missed': [], 'noisy': [],
            'seeded': 0, 'seeded_caught': 0}
     # changes written by independent reviewers who saw only the property text (kept under /verif/seeded): each must
@@ -214,7 +220,7 @@ def selftest(run, repo, mod):
         if r is None:
             res['missed'].append('%s (analysis error instead of finding: %s)' % (name, err[:120]))
             continue
-        if [f for f in r.findings if f.ident() not in base]:
+        if [f for f in r.findings if (f.ident(), f.sig) not in base]:
             res['seeded_caught'] += 1
         else:
             res['missed'].append('%s (no new finding)' % name)
@@ -231,7 +237,7 @@ def selftest(run, repo, mod):
             else:
                 res['missed'].append('%s (analysis error instead of finding: %s)' % (mt['name'], err[:120]))
             continue
-        new = [f for f in r.findings if f.ident() not in base]
+        new = [f for f in r.findings if (f.ident(), f.sig) not in base]
         exp = mt.get('expect')
         hit = [f for f in new if exp is None or exp == 'error' or
                (f.rule.startswith(exp[0]) and exp[1] in f.construct)]
@@ -249,8 +255,8 @@ def selftest(run, repo, mod):
         r, err = run_check(mod, prop, repo.root, ov)
         if r is None:
             res['noisy'].append('%s (analysis error: %s)' % (name, err[:160]))
-        elif [f for f in r.findings if f.ident() not in base]:
-            res['noisy'].append('%s (%s)' % (name, [f.ident()[1:] for f in r.findings if f.ident() not in base][:2]))
+        elif [f for f in r.findings if (f.ident(), f.sig) not in base]:
+            res['noisy'].append('%s (%s)' % (name, [f.ident()[1:] for f in r.findings if (f.ident(), f.sig) not in base][:2]))
         else:
             res['silent'] += 1
     for eq in eqs:
@@ -263,7 +269,7 @@ def selftest(run, repo, mod):
         if r is None:
             res['noisy'].append('%s (analysis error: %s)' % (eq['name'], err[:160]))
             continue
-        new = [f for f in r.findings if f.ident() not in base]
+        new = [f for f in r.findings if (f.ident(), f.sig) not in base]
         if new:
             res['noisy'].append('%s (%s)' % (eq['name'], [f.ident()[1:] for f in new][:2]))
         else:
